@@ -13,8 +13,9 @@
 (* are the design-level races the conformance driver then aims at.         *)
 (***************************************************************************)
 EXTENDS Integers, Sequences, FiniteSets, TLC
-VARIABLES pods, nodes, res, wls, lock, pc, loc, pair
-vars == <<pods, nodes, res, wls, lock, pc, loc, pair>>
+VARIABLES pods, nodes, res, wls, lock, pc, loc, pair, use, size
+vars == <<pods, nodes, res, wls, lock, pc, loc, pair, use, size>>
+Cap == 4    \* memory capacity of the node; a pre-deployed workload and a new one take 2 each, a realloc adds 1
 Procs == {"A", "B"}
 Op(o) == pair[o]
 
@@ -25,8 +26,8 @@ Go(o, l) == pc' = [pc EXCEPT ![o] = l]
 Keep(o) == loc' = loc
 SetLoc(o, v) == loc' = [loc EXCEPT ![o] = v]
 
-(* ---- one step of operation o ---- *)
-Step(o) ==
+(* ---- one step of operation o (Base: everything but the usage accounting) ---- *)
+Base(o) ==
   LET k == Op(o).kind  p == Op(o).pod  n == Op(o).node  w == Op(o).wl IN
   CASE k = "addpod" /\ pc[o] = "start" ->
          /\ pods' = pods \cup {p} /\ Go(o, "done") /\ Keep(o) /\ UNCHANGED <<nodes, res, wls, lock>>
@@ -90,17 +91,47 @@ Step(o) ==
          /\ wls' = (IF w \in DOMAIN wls THEN Drop(wls, w) ELSE wls) /\ lock' = [lock EXCEPT ![loc[o]] = ""]
          /\ Go(o, "done") /\ Keep(o) /\ UNCHANGED <<pods, nodes, res>>
 
-Kinds == {"addpod", "removepod", "addnode", "removenode", "create", "remove"}
+\* usage accounting on top of Base: the allocation of a create, the release of a remove, and realloc (all under the pod lock)
+Step(o) ==
+  LET k == Op(o).kind  w == Op(o).wl IN
+  CASE k = "create" /\ pc[o] = "alloc" ->
+         \* the allocation is refused when the node is full
+         IF "n1" \in res /\ use + 2 > Cap
+         THEN /\ pc' = [pc EXCEPT ![o] = "done"] /\ lock' = [lock EXCEPT !["p1"] = ""] /\ loc' = [loc EXCEPT ![o] = "refused"]
+              /\ UNCHANGED <<pods, nodes, res, wls, use, size>>
+         ELSE Base(o) /\ use' = (IF "n1" \in res THEN use + 2 ELSE use) /\ UNCHANGED size
+    [] k = "create" /\ pc[o] = "getnode" /\ "n1" \notin DOMAIN nodes ->
+         Base(o) /\ use' = use - 2 /\ UNCHANGED size          \* the node is gone: the instance fails and its allocation is given back
+    [] k = "create" /\ pc[o] = "record" -> Base(o) /\ size' = [x \in DOMAIN size \cup {w} |-> IF x = w THEN 2 ELSE size[x]] /\ UNCHANGED use
+    [] k = "remove" /\ pc[o] = "del" -> Base(o) /\ use' = (IF w \in DOMAIN wls THEN use - size[w] ELSE use) /\ UNCHANGED size
+    [] k = "realloc" /\ pc[o] = "start" ->
+         IF w \notin DOMAIN wls \/ wls[w] \notin DOMAIN nodes
+         THEN pc' = [pc EXCEPT ![o] = "done"] /\ UNCHANGED <<pods, nodes, res, wls, lock, loc, use, size>>
+         ELSE pc' = [pc EXCEPT ![o] = "lock"] /\ UNCHANGED <<pods, nodes, res, wls, lock, loc, use, size>>
+    [] k = "realloc" /\ pc[o] = "lock" ->
+         /\ lock["p1"] = "" /\ lock' = [lock EXCEPT !["p1"] = o] /\ pc' = [pc EXCEPT ![o] = "calc"]
+         /\ UNCHANGED <<pods, nodes, res, wls, loc, use, size>>
+    [] k = "realloc" /\ pc[o] = "calc" ->                     \* reads the usage, decides whether one more unit fits
+         /\ loc' = [loc EXCEPT ![o] = IF w \in DOMAIN wls /\ use + 1 <= Cap THEN "fits" ELSE "refused"]
+         /\ pc' = [pc EXCEPT ![o] = "write"] /\ UNCHANGED <<pods, nodes, res, wls, lock, use, size>>
+    [] k = "realloc" /\ pc[o] = "write" ->
+         /\ use' = (IF loc[o] = "fits" THEN use + 1 ELSE use)
+         /\ size' = (IF loc[o] = "fits" /\ w \in DOMAIN size THEN [size EXCEPT ![w] = @ + 1] ELSE size)
+         /\ lock' = [lock EXCEPT !["p1"] = ""] /\ pc' = [pc EXCEPT ![o] = "done"] /\ UNCHANGED <<pods, nodes, res, wls, loc>>
+    [] OTHER -> Base(o) /\ UNCHANGED <<use, size>>
+Kinds == {"addpod", "removepod", "addnode", "removenode", "create", "remove", "realloc"}
 \* the scenario: pod p1 exists; in "with-node" pre-states node n1 (with its resource record) and possibly workload w1 exist
 PreStates == {"empty-pod", "with-node", "with-workload"}
-MkOp(k) == [kind |-> k, pod |-> "p1", node |-> "n1", wl |-> IF k = "create" THEN "w2" ELSE "w1"]
+MkOp(k, o) == [kind |-> k, pod |-> "p1", node |-> "n1", wl |-> IF k = "create" THEN (IF o = "A" THEN "w2" ELSE "w3") ELSE "w1"]
 Init == \E pre \in PreStates, ka \in Kinds, kb \in Kinds :
-          /\ pair = [A |-> MkOp(ka), B |-> MkOp(kb), pre |-> pre]
+          /\ pair = [A |-> MkOp(ka, "A"), B |-> MkOp(kb, "B"), pre |-> pre]
           /\ pods = {"p1"}
           /\ nodes = (IF pre = "empty-pod" THEN <<>> ELSE [x \in {"n1"} |-> "p1"])
           /\ res = (IF pre = "empty-pod" THEN {} ELSE {"n1"})
           /\ wls = (IF pre = "with-workload" THEN [x \in {"w1"} |-> "n1"] ELSE <<>>)
           /\ lock = [x \in {"p1"} |-> ""] /\ pc = [o \in Procs |-> "start"] /\ loc = [o \in Procs |-> ""]
+          /\ use = (IF pre = "with-workload" THEN 2 ELSE 0)
+          /\ size = (IF pre = "with-workload" THEN [x \in {"w1"} |-> 2] ELSE <<>>)
 Next == \E o \in Procs : pc[o] # "done" /\ Step(o) /\ UNCHANGED pair
 Spec == Init /\ [][Next]_vars
 
@@ -110,8 +141,12 @@ RefOK ==
     /\ DOMAIN nodes \subseteq res /\ res \subseteq DOMAIN nodes  \* node <-> resource record
     /\ \A w \in DOMAIN wls : wls[w] \in DOMAIN nodes        \* every workload belongs to a recorded node
 Referential == Quiescent => RefOK
+RECURSIVE SumSize(_)
+SumSize(S) == IF S = {} THEN 0 ELSE LET x == CHOOSE y \in S : TRUE IN size[x] + SumSize(S \ {x})
+UsageOK == use <= Cap /\ ("n1" \in res => use = SumSize(DOMAIN wls \cap DOMAIN size))
 Which == IF ~(\A n \in DOMAIN nodes : nodes[n] \in pods) THEN "node-in-removed-pod"
          ELSE IF ~(DOMAIN nodes \subseteq res) THEN "node-without-resource-record"
          ELSE IF ~(res \subseteq DOMAIN nodes) THEN "resource-record-without-node"
-         ELSE IF ~(\A w \in DOMAIN wls : wls[w] \in DOMAIN nodes) THEN "workload-on-unrecorded-node" ELSE "ok"
+         ELSE IF ~(\A w \in DOMAIN wls : wls[w] \in DOMAIN nodes) THEN "workload-on-unrecorded-node"
+         ELSE IF ~UsageOK THEN "usage-differs-or-above-capacity" ELSE "ok"
 =============================================================================
